@@ -137,7 +137,7 @@ def _cases():
             continue
         if cat == "observables" and ver == "2.0":
             continue
-        slots = sorted(set(cls._properties) | {"extensions", "x_custom", "spec_version", "custom_properties", "", "granular_markings", "object_marking_refs"})
+        slots = sorted(set(cls._properties) | {"extensions", "x_custom", "spec_version", "custom_properties", "", "granular_markings", "object_marking_refs", "_valid_refs", "allow_custom", "interoperability"})
         for sl in slots:
             out.append((ver, cat, name, sl, base))
     # nested sites
